@@ -4,6 +4,7 @@ package nflog
 
 import (
 	"fmt"
+	"io"
 	"sync"
 	"testing"
 	"time"
@@ -43,6 +44,8 @@ func TestVerifRaceNflog(t *testing.T) {
 			defer wg.Done()
 			for i := 0; i < 100; i++ {
 				y.l.GC()
+				y.l.Snapshot(io.Discard)
+				y.l.MarshalBinary()
 			}
 		}()
 		go func() {
@@ -58,7 +61,7 @@ func TestVerifRaceNflog(t *testing.T) {
 	R.AddKey("completed")
 	R.AddKey(fmt.Sprint("rounds>0:", rounds > 0))
 	R.Extra["supporting"] = true
-	R.Bound = fmt.Sprintf("free-running stress under the race detector: %d rounds of Log || Merge || GC || Query", rounds)
+	R.Bound = fmt.Sprintf("free-running stress under the race detector: %d rounds of Log || Merge || GC+Snapshot+MarshalBinary || Query", rounds)
 	R.Sample(map[string]any{"rounds": rounds})
 	R.Write()
 }
